@@ -4,7 +4,7 @@ owner; member-count quorum with a faked member count.  Oracle: the quorum arithm
 from streams.cluster import T0, hx
 
 HEADER = 3
-REQUIRED_SHAPES = ["every_command_refused_below_member_quorum", "backup_without_copy", "write_quorum_met_with_unreachable", "write_quorum_unmet", "read_quorum_unmet", "read_quorum_met",
+REQUIRED_SHAPES = ["connection_served_before_quorum_was_lost", "every_command_refused_below_member_quorum", "backup_without_copy", "write_quorum_met_with_unreachable", "write_quorum_unmet", "read_quorum_unmet", "read_quorum_met",
                    "member_quorum_refused"]
 
 
@@ -17,6 +17,7 @@ class Oracle:
         self.copies = {}        # member -> has a copy of the key (after acknowledged or failed writes)
         self.written = False
         self.lowq = set()
+        self.served = set()
 
     def hit(self, s):
         self.shapes[s] = self.shapes.get(s, 0) + 1
@@ -31,6 +32,7 @@ class Oracle:
             self.unreach = set()
             self.copies = {}
             self.lowq = set()
+            self.served = set()
             return None
         if name == "c.own":
             p, b = reply.split("pick=")[1].split()[0].split("/")
@@ -59,8 +61,12 @@ class Oracle:
             cmd = bytes.fromhex(a[1]).decode().lower()
             self.hit("every_command_refused_below_member_quorum")
             return None if reply == "cq" else "%s sent to a member below MemberCountQuorum was answered %s instead of the cluster-quorum error" % (cmd.upper(), reply[:60])
+        if name in ("c.put", "c.get") and int(a[1]) not in self.lowq:
+            self.served.add(a[0])
         if name in ("c.put", "c.get") and int(a[1]) in self.lowq:
             self.hit("member_quorum_refused")
+            if a[0] in self.served:
+                self.hit("connection_served_before_quorum_was_lost")
             return None if reply == "cq" else "%s through a member below MemberCountQuorum answered %s" % (name, reply)
         if name == "c.put":
             owner, baks = self.route[0][-1], self.route[1]
@@ -141,8 +147,12 @@ class Gen:
         key2 = hx(b"fresh%d" % r.randrange(50))
         # phase 3: member-count quorum on the owner
         if mcq > 1 and not victims:
+            # connections that were opened - and served - while the member had its quorum are used again below it
+            yield "c.get raw %d dm %s" % (owner, key)
+            yield "c.get cli %d dm %s" % (owner, key)
             yield "c.nummembers %d %d" % (owner, mcq - 1)
             yield "c.get raw %d dm %s" % (owner, key)
+            yield "c.get cli %d dm %s" % (owner, key)
             yield "c.put raw %d dm %s %s" % (owner, key, hx(b"v3"))
             yield "c.get emb %d dm %s" % (owner, key)
             # every command a member serves (the list is the member's own) - except the routing-table push, which is what
